@@ -104,7 +104,8 @@ def run(case, bct, REC):
     f = getattr(bct, fname)
     prev = None
     exp_core = {}
-    for k in range(0, n + 1):
+    # in- plus out-degree reaches 2(n-1) in a digraph: every level up to there (and one beyond) is exercised
+    for k in range(0, (2 * n if directed else n + 1)):
         REC.tag(PROP, 'exec')
         S = O.kcore_set(A, k, mode)
         if enum and n <= 8:
@@ -149,7 +150,7 @@ def run(case, bct, REC):
     if ok:
         cor, kn = res
         exp = np.zeros(n)
-        for k in range(0, n):
+        for k in sorted(exp_core):     # "the largest k whose core contains it", whatever its size relative to n
             for v in exp_core[k]:
                 exp[v] = k
         REC.check(PROP, cname, 'coreness', bool(np.array_equal(np.asarray(cor, dtype=float), exp)), {'A': A, 'got': cor, 'expected': exp})
